@@ -1,5 +1,6 @@
 """C11: Merkle proof checks are complete and sound (check_proof, check_block_header_proof, check_account_proof)."""
 from ..gen import cells as G
+from ..translate import arith2
 from ..gen import tlbvals as V
 
 SPEC = dict(
@@ -38,15 +39,25 @@ SPEC = dict(
              "zero-width lengths), forged states, accounts cells without or with a cut HashmapAugE extra, and a stream that drives every branch of the TL-B walk "
              "(defective leaves / extras / extra-currency dictionaries / ref group / custom / tags, each once pruned away = must accept and once left in = must "
              "reject); every verdict is also compared with the expectation known by construction, and the cell the library's walk returns with an "
-             "independent Python transcription of the hashmap.tlb lookup.",
-        level_note='Trusted: Lean kernel; Spec/Cell.lean; Model/Cell.lean, Model/Proof.lean, Model/Locate.lean as hand transcriptions (sampled correspondence); '
+             "independent Python transcription of the hashmap.tlb lookup. "
+             "In addition every `if ...: raise ProofError` test of check_proof, check_block_header_proof, check_account_proof (and the simple ones of "
+             "check_shard_proof) and the CellTypes constants are re-translated from the source on every run (Generated/ProofChecks.lean; bytes "
+             "slices, concatenation and to_bytes included) and proved, for ALL values, to be the model's tests (c11_src_proof_tests, "
+             "c11_src_header_tests, c11_src_account_tests, c11_src_cell_types); the hand model's check_proof / check_block_header_proof / "
+             "check_account_proof are proved to be exactly the composition of these source tests in the order of the code (c11_src_check_proof, "
+             "c11_src_header, c11_src_account; first decisions of check_shard_proof: c11_src_shard).",
+        level_note='Trusted: Lean kernel; Spec/Cell.lean; Model/Cell.lean, Model/Proof.lean, Model/Locate.lean as hand transcriptions (sampled correspondence; the '
+                   'raise-tests of check_proof.py themselves are regenerated from the source and proved for all values, trusting the translator '
+                   'harness/translate/pyarith.py and its reading of bytes operations in lean/TonVerif/PyBytes.lean + PyBytes2.lean; what the operands '
+                   'cell[0].get_hash(0), cell.data, ... evaluate to remains with the hand model); '
                    'BoC decoding (roots = result of Cell.from_boc) is abstracted; of the TL-B walk to the account cell TWO sub-parsers remain Boolean parameters '
                    '(structure Opaque: Account.deserialize on an account$1 cell, McStateExtra.deserialize on an ordinary cell) -- every account theorem is quantified '
                    'over all their values, completeness needs them to return where such a cell is left unpruned; in the correspondence their verdicts are taken from '
                    'the library per case; check_shard_proof is modelled with Boolean parameters and has no correspondence; SHA-256 is a parameter, soundness '
                    'assumes no collision among the representations at hand.',
-        technique='Lean 4 proof (hand model) + differential correspondence with the library',
+        technique='Lean 4 proof (hand model) + differential correspondence with the library + source-regenerated decision lines',
     ),
+    translators=[('check_proof.py raise-tests, exotic.py CellTypes->Generated/ProofChecks.lean', arith2.regenerator('ProofChecks'))],
     design_ref='DESIGN.md §6 C11',
     rule='trees (ordinary DAGs, exotic trees with library cells and inner Merkle proofs/updates, block-like shapes), random pruning sets at Merkle '
          'depth 1, proof = MPROOF cell over the pruned tree; positive stream must be accepted by check_proof/check_block_header_proof; negative '
@@ -62,7 +73,8 @@ SPEC = dict(
                   'Account.deserialize (account$1) and McStateExtra.deserialize (ordinary cell) are Boolean parameters whose verdicts the harness takes from the library',
                   'BoC decoding (Cell.from_boc) is abstracted: roots list',
                   'Spec/Cell.lean transcribes the TON level-mask / per-level hash rules; Model/Locate.lean lookupShardAccount transcribes the hashmap.tlb lookup and the block.tlb layout of ShardStateUnsplit / ShardAccounts / DepthBalanceInfo / ShardAccount',
-                  'SHA-256 abstract in theorems'],
+                  'SHA-256 abstract in theorems',
+                  'harness/translate/pyarith.py + arith.py/arith2.py and lean/TonVerif/PyBytes.lean + PyBytes2.lean (Python comparisons / bytes slices -> Lean) for the c11_src_* theorems'],
     assumptions=['hashlib.sha256 is SHA-256', 'soundness theorems assume no SHA-256 collision among the cell representations of the two trees compared',
                  'correspondence is sampled'],
 )
@@ -1398,12 +1410,66 @@ def run_walk_case(ctx, dag, idx, kb, fkey):
 
 # ----------------------------------------------------------------------------- run / replay
 
+def src_search(ctx):
+    """Search mode only (a c11_src_* obligation broke): logs the points where a regenerated test of Generated/ProofChecks.lean differs
+    from the model's test, then runs every root-cell family on Merkle proofs over chains of depth 0..9 (unpruned, so that the verdict
+    only depends on the proof cell): the honest proof, non-proof wrappers, wrong hashes, extra/missing references, and proof cells cut
+    to 272..279 bits or extended (a 277-bit cell over a depth-4 tree pads to the same 35 data bytes as the honest 280-bit one).
+    True = a concrete failing input was found."""
+    found = arith2.search_points(ctx, ['ProofChecks'])
+    ctx.src_account_first = any(k.startswith(('acct', 'shard')) for k in found)
+    n0 = len(ctx.failures)
+    rng = ctx.rng
+    for depth in range(0, 10):
+        nodes = [(G.ORD, '1', ())] + [(G.ORD, G.rand_bits(rng, 8), (i,)) for i in range(depth)]
+        infos = G.spec_dag(nodes)
+        root = depth
+        h = infos[root].H[0]
+        mp = make_proof(rng, nodes, infos, root, mode='none')
+        if mp is None:
+            continue
+        pn, R, proot, _ = mp
+        pinfos = G.spec_dag(pn)
+        run_proof_case(ctx, pn, R, h, 'acc', 'complete:check_proof', f'Merkle proof over an unpruned chain of depth {depth} rejected',
+                       hdr_idx=proot, hdr_expect='acc x')
+        kind, bits, refs = pn[R]
+        for nb in [bits[:k] for k in range(272, 280)] + [bits + '0', bits + '1', bits + '1000', bits + '0' * 8]:
+            mut = list(pn)
+            mut[R] = (kind, nb, refs)
+            run_proof_case(ctx, mut, R, h, 'rej', 'sound:rootcell', f'proof cell with {len(nb)} bits accepted', mut={'root_bits': len(nb)})
+        not_a_proof(ctx, rng, pn, pinfos, R, proot, h)
+        wrong_hashes(ctx, rng, pn, pinfos, R, proot, h)
+        mutate_refs(ctx, rng, pn, pinfos, R, proot, h, 2)
+    # block-like trees (root[2] a Merkle update): the store_state_hash path of check_block_header_proof, honest and forged
+    for _ in range(40):
+        db = G.DagBuilder()
+        root = gen_blocklike(rng, db)
+        if not db.ok(root) or db.infos[root].mask != 0:
+            continue
+        nodes, infos = db.nodes[:root + 1], db.infos[:root + 1]
+        h = infos[root].H[0]
+        mp = make_proof(rng, nodes, infos, root, mode=rng.choice(['none', 'random']))
+        if mp is None:
+            continue
+        pn, R, proot, npruned = mp
+        pinfos = G.spec_dag(pn)
+        run_proof_case(ctx, pn, R, h, 'acc', 'complete:check_proof', f'Merkle proof of a block-like tree built by pruning {npruned} subtrees rejected',
+                       hdr_idx=proot, hdr_expect=state_hash_expect(nodes, infos, root, pn, proot), nontrivial=npruned > 0)
+        forged_state_hash(ctx, rng, pn, pinfos, R, proot, h)
+    return len(ctx.failures) > n0
+
+
 def run(ctx):
     rng = ctx.rng
-    generic_streams(ctx, rng)
-    account_stream(ctx, rng)
-    extra_stream(ctx, rng)
-    walk_stream(ctx, rng)
+    if ctx.search and src_search(ctx):
+        return
+    streams = [generic_streams, account_stream, extra_stream, walk_stream]
+    if ctx.search and getattr(ctx, 'src_account_first', False):
+        streams = [account_stream, walk_stream, generic_streams, extra_stream]     # a test of check_account_proof differs: look there first
+    for stream in streams:
+        stream(ctx, rng)
+        if ctx.search and ctx.failures:
+            return                   # search mode only needs one concrete failing input
 
 
 def replay(ctx, payload):
